@@ -75,7 +75,20 @@ def do_parse(ex, st, n, fmt, kwl, outs):
     if isinstance(kwl, ArrV):
         names = [k.s for k in kwl.items if isinstance(k, StrV)]
     if len(codes) != len(outs):
-        raise Unsupported('format/argument count mismatch in %s' % fmt.s)
+        ex.oblige(st, 'extern-requires', z3.BoolVal(False), n,
+                  text='PyArg_Parse* requires one output address per format '
+                  'unit ("%s": %d units, %d addresses)' % (
+                      fmt.s, len(codes), len(outs)))
+        if len(codes) > len(outs):
+            raise Unsupported('format/argument count mismatch in %s' % fmt.s)
+        outs = outs[:len(codes)]     # surplus addresses are never written
+    if names is not None and len(names) != len(codes):
+        # fewer names than units: keywords bind to the wrong variable and
+        # CPython raises SystemError when every argument is given
+        ex.oblige(st, 'extern-requires', z3.BoolVal(False), n,
+                  text='PyArg_ParseTupleAndKeywords requires one keyword '
+                  'name per format unit ("%s": %d units, %d names)' % (
+                      fmt.s, len(codes), len(names)))
     ok = ex.fresh_bool('parse_ok')
     parsed = st.ghost.setdefault('parsed', {})
     parsed = dict(parsed)
@@ -84,7 +97,15 @@ def do_parse(ex, st, n, fmt, kwl, outs):
         p = ex.ev(o, st)
         nm = names[i] if names and i < len(names) else 'arg%d' % i
         if not isinstance(p, PtrV):
-            raise Unsupported('parse output is not an address')
+            # the value of the variable is passed where its address is
+            # expected: CPython stores through it when the argument is given
+            ex.oblige(st, 'extern-requires', z3.BoolVal(False), n,
+                      text='PyArg_Parse* requires an address for format unit '
+                      '%d (%s)' % (i + 1, nm))
+            order.append(nm)
+            parsed[nm] = toint(p).t if isinstance(p, (IntV, BoolV)) else \
+                ex.fresh_int(nm, 'int').t
+            continue
         old = ex.load_through(p, st, n)
         if code == 'O':
             obj = ex.new_obj(nm)
@@ -381,10 +402,13 @@ def c_labs(ex, st, n, args):
 
 def _alloc(ex, st, n, size, what):
     noimpure(st)
-    cnt = ex.site_counts.get(('malloc', n.get('line')), 0)
-    ex.site_counts[('malloc', n.get('line'))] = cnt + 1
+    # deterministic naming per path (a statement that is re-executed after a
+    # fork must regenerate the same symbols)
+    key = ('malloc', n.get('line'), n.get('off', (0, 0))[0])
+    cnt = st.ghost.get(key, 0)
+    st.ghost[key] = cnt + 1
     r = Region('malloc', '%s@%s#%d' % (what, n.get('line'), cnt), size)
-    isnull = ex.fresh_bool('alloc_fails@%s' % n.get('line'))
+    isnull = z3.Bool('alloc_fails@%s.%s#%d' % (n.get('line'), key[2], cnt))
     t = CT(n['ty'])
     return PtrV(r, 0, t.pointee or 'void', null=isnull)
 
